@@ -20,9 +20,12 @@
   What is FALSE (concrete schedules, `decide`/`rfl` on closed terms):
   * `C06_witness_two_creators` / `C06_null_generation_full_false`: two writes with generation null
     for a consumer that does not exist both answer 204 (known finding C);
-  * `C06_witness_empty_write_stale_generation` / `C06_existing_full_false`: a write with an EMPTY
-    allocations entry re-reads the consumer's generation after the check (`get_all_by_consumer_id`),
-    so it removes allocations written after its check although it carried the old generation.
+  * `C06_witness_two_empty_writes` / `C06_existing_full_false`: a write with an EMPTY allocations
+    entry that finds nothing to remove contains no compare-and-swap: two empty writes carrying the same
+    generation both answer 204 (the second changes nothing).  Hence the restriction to non-empty
+    entries in the `_partial` theorems.  (The earlier, harmful variant - the empty write re-read the
+    consumer generation after its check and removed allocations written in between - was found while
+    attempting this proof, reproduced on the real application and repaired: 8fa9b40.)
 -/
 import Placement.Lemmas.SchedConsTxn
 import Placement.Lemmas.WfExample
@@ -296,16 +299,23 @@ theorem C06_null_generation_full_false : ¬ C06_null_generation_full := by
 def exEmpty : ConsumerReq :=
   { uuid := 500, project := some 7, user := some 8, ctype := none, gen := some 1, allocs := [] }
 
-def emptyRace : List (Op Nat) := [.allocPut 39 (exA 3), .allocPut 39 exEmpty]
+/-- a non-empty and an EMPTY write carrying the same generation: the empty write is guarded by the
+consumer record that was validated (repair 8fa9b40 of the re-read generation, found by this proof
+attempt), so after the other request's commit it is refused -/
+example : (Prog.runSched [1, 1, 1, 0, 0, 0, 0, 0, 1, 1] Wf.exDb
+    (([.allocPut 39 (exA 3), .allocPut 39 exEmpty] : List (Op Nat)).map (prog Wf.exCfg))).2.map Prog.result? =
+    [some r204, some (r409 .concurrentUpdate)] := by decide
 
-/-- **C06_witness_empty_write_stale_generation.**  Consumer 500 exists with generation 1.  Request 1
-(`allocations: {}`, generation 1) passes the generation comparison; request 0 (3 units, generation 1)
-runs completely: 204, generation 2; request 1 then reads the consumer's allocations TOGETHER WITH ITS
-CURRENT GENERATION and its compare-and-swap uses that generation: 204, the allocations written by
-request 0 after request 1's check are gone.  Two successes with one generation; a lost update. -/
-theorem C06_witness_empty_write_stale_generation :
+def emptyRace : List (Op Nat) := [.allocPut 39 exEmpty, .allocPut 39 exEmpty]
+
+/-- **C06_witness_two_empty_writes.**  Consumer 500 exists with generation 1.  Two writes with
+`allocations: {}` and generation 1.  Request 1 passes the generation comparison; request 0 runs
+completely: 204, the allocations and the consumer are removed; request 1 then finds no allocation to
+remove, its main transaction contains no compare-and-swap at all and it answers 204 as well.  Two
+successes with one generation; the second changes nothing (the analogue of the no-op PUT traits). -/
+theorem C06_witness_two_empty_writes :
     let fin := Prog.runSched [1, 1, 1, 0, 0, 0, 0, 0, 1, 1] Wf.exDb (emptyRace.map (prog Wf.exCfg))
-    fin.2.map Prog.result? = [some r204, some r204] ∧ fin.1.allocs = [] := by
+    fin.2.map Prog.result? = [some r204, some r204] ∧ fin.1.allocs = [] ∧ fin.1.consumers = [] := by
   decide
 
 theorem C06_existing_full_false : ¬ at_most_one_success_same_consumer_generation_existing_full := by
